@@ -227,19 +227,29 @@ def run_case(spec, j):
              20 * len(np.unique(y[y >= 0])) ** 2]))
         if want_weights:
           ncs = [nc_w]     # the weights were sized for this count
+        last_err = None
         for nc in ncs:
-          if name != 'LSML_Supervised':
-            a, b, c, dd = Constraints(y).positive_negative_pairs(
-                nc, random_state=seed)
-            idx = np.vstack([np.column_stack([a, b]),
-                             np.column_stack([c, dd])])
-            lab = np.r_[np.ones(len(a)), -np.ones(len(c))]
-            twins.append(Base(**bp).fit(X[idx], lab))
-          else:
-            a, b, c, dd = Constraints(y).positive_negative_pairs(
-                nc, same_length=True, random_state=seed)
-            quad = X[np.column_stack([a, b, c, dd])]
-            twins.append(Base(**bp).fit(quad, weights=pfull.get('weights')))
+          # with an ambiguous default count only the reading the library
+          # actually uses has to fit: the other one is the harness's guess
+          try:
+            if name != 'LSML_Supervised':
+              a, b, c, dd = Constraints(y).positive_negative_pairs(
+                  nc, random_state=seed)
+              idx = np.vstack([np.column_stack([a, b]),
+                               np.column_stack([c, dd])])
+              lab = np.r_[np.ones(len(a)), -np.ones(len(c))]
+              twins.append(Base(**bp).fit(X[idx], lab))
+            else:
+              a, b, c, dd = Constraints(y).positive_negative_pairs(
+                  nc, same_length=True, random_state=seed)
+              quad = X[np.column_stack([a, b, c, dd])]
+              twins.append(Base(**bp).fit(quad,
+                                          weights=pfull.get('weights')))
+          except Exception as e:
+            last_err = e
+            j.count('twin-candidate-raised')
+        if not twins:
+          raise last_err
         twin = twins[0]
       elif name == 'RCA_Supervised':
         ch = Constraints(y).chunks(n_chunks=pfull['n_chunks'],
@@ -276,7 +286,7 @@ def run_case(spec, j):
     return
   Mtw = twin.get_mahalanobis_matrix()
   scale = max(np.abs(Msup).max(), 1e-300)
-  if len(locals().get('twins', [])) > 1:
+  if len(locals().get('ncs', [])) > 1:
     # ambiguous default count: accept the reading that matches
     for tw in twins:
       Mc = tw.get_mahalanobis_matrix()
